@@ -39,6 +39,7 @@ func trim(col []uint64, n int) []uint64 {
 type layouter struct {
 	l   Layout
 	rng *rand.Rand
+	n   int
 }
 
 func newLayouter(l Layout) *layouter {
@@ -55,6 +56,14 @@ var unknownNums = []int32{11, 12, 13, 14, 15, 25, 26, 99, 1000}
 // apply lays out one message.  keepOrder (primitive groups) forbids permutation
 // because there the order of the items is the order of the elements.
 func (lo *layouter) apply(m []Field, keepOrder bool) []Field {
+	if lo.l.FixedLast {
+		defer func() { lo.n++ }()
+		if lo.n%2 == 0 {
+			m = append(m, Field{Num: 99, Kind: KFix64, Var: 0x0102030405060708})
+		} else {
+			m = append(m, Field{Num: 1000, Kind: KFix32, Var: 0x01020304})
+		}
+	}
 	if lo.rng == nil {
 		return m
 	}
@@ -82,19 +91,23 @@ func (lo *layouter) apply(m []Field, keepOrder bool) []Field {
 		for k := lo.rng.Intn(3); k > 0; k-- {
 			var f Field
 			n := unknownNums[lo.rng.Intn(len(unknownNums))]
-			switch lo.rng.Intn(3) {
+			switch lo.rng.Intn(5) {
 			case 0:
 				f = fv(n, uint64(lo.rng.Int63())>>uint(lo.rng.Intn(63)))
 			case 1:
 				s := make([]byte, lo.rng.Intn(6))
 				lo.rng.Read(s)
 				f = fs(n, s)
+			case 2:
+				f = Field{Num: n, Kind: KFix64, Var: lo.rng.Uint64()}
+			case 3:
+				f = Field{Num: n, Kind: KFix32, Var: uint64(lo.rng.Uint32())}
 			default:
 				f = fv(n, uint64(lo.rng.Intn(300)))
 			}
-			// NOTE: no fixed32/fixed64 unknown fields: protoscan v0.2.1 Message.Skip reports
-			// io.ErrUnexpectedEOF for a fixed-width field that ends exactly at the end of
-			// the message (`len(m.Data) <= m.Index+8`); a third-party defect outside /repo.
+			// fixed32/fixed64 unknown fields are included since fix e98d69a in /repo (protoscan v0.2.1
+			// Message.Skip reports io.ErrUnexpectedEOF for a fixed-width field that ends a message; the
+			// decoder now skips those itself); the insertion position below may be the end of the message.
 			at := lo.rng.Intn(len(m) + 1)
 			m = append(m, Field{})
 			copy(m[at+1:], m[at:])
